@@ -380,16 +380,26 @@ fn splice(printed: &str, d: &Directive, nloops: usize, nrets: usize) -> Result<S
         let mut out2: Vec<String> = Vec::new();
         let after = pat.starts_with('\u{2}');
         let pat = pat.trim_start_matches('\u{2}');
+        // `#k <prefix>` selects the k-th statement starting with the prefix (default: first)
+        let (mut skip, pat): (usize, &str) = match pat.strip_prefix('#') {
+            Some(rest) => {
+                let (num, p) = rest.split_once(' ').unwrap_or((rest, ""));
+                (num.parse::<usize>().unwrap_or(1).saturating_sub(1), p.trim_start())
+            }
+            None => (0, pat),
+        };
         let mut pending: Option<usize> = None; // indentation of the matched statement (after-stmt)
         for l in out.into_iter() {
-            if !done && pending.is_none() && l.trim_start().starts_with(pat) {
+            let is_match = !done && pending.is_none() && l.trim_start().starts_with(pat);
+            if is_match && skip > 0 { skip -= 1; out2.push(l); continue; }
+            if is_match {
                 let ind = l.len() - l.trim_start().len();
                 if after { pending = Some(ind); } else {
                     out2.push(indent(txt, ind));
                     done = true;
                 }
             }
-            let is_end = pending.map(|ind| l.len() - l.trim_start().len() == ind && l.trim_end().ends_with(';')).unwrap_or(false);
+            let is_end = pending.map(|ind| l.len() - l.trim_start().len() == ind && (l.trim_end().ends_with(';') || l.trim() == "}")).unwrap_or(false);
             out2.push(l);
             if is_end {
                 out2.push(indent(txt, pending.unwrap()));
@@ -651,7 +661,9 @@ fn main() {
                 }
                 if emit_canaries { canary = canary_for(&f.sig, &d.header, None); }
                 n.run_fn(&mut f.sig, &mut f.block, d.ret.is_some());
-                let file = syn::File { shebang: None, attrs: vec![], items: vec![syn::Item::Fn(f)] };
+                let mut items: Vec<syn::Item> = std::mem::take(&mut n.hoisted);
+                items.push(syn::Item::Fn(f));
+                let file = syn::File { shebang: None, attrs: vec![], items };
                 (prettyplease::unparse(&file), sp, n.nloops, n.nrets)
             }
             Found::Method { mut imp, mut f } => {
